@@ -162,6 +162,70 @@ def layout_sweep(tier="quick", seed=0):
                   "two memories of 1/2/4 words at word distances 0..5; arrays of 3 elements of 1/2/4 words with steps of 1..5 words", "contracts.c20_layout.replay_layout")
 
 
+_KEYS_SCRIPT = r'''
+from __future__ import annotations
+import itertools, json
+from cohdl import BitVector, Unsigned
+from cohdl import std
+from cohdl.std.reg import reg32
+from cohdl.std.axi import axi4_light as axi
+
+bad, n = [], 0
+# (a) field specialisations: equal exactly for equal (position, kind, default)
+specs = {}
+for (hi, lo), default in itertools.product(((7, 0), (7, 4), (3, 0)), (None, 5, 9)):
+    n += 1
+    specs[(hi, lo, default)] = reg32.MemUField[hi:lo] if default is None else reg32.MemUField[hi:lo, default]
+for k1, k2 in itertools.combinations(specs, 2):
+    n += 1
+    if specs[k1] is specs[k2]:
+        bad.append(["field-class-shared", k1, k2])
+
+# the default a register is reset to is the one of ITS declaration
+class RegA(reg32.Register):
+    f: reg32.MemUField[7:0, 5]
+
+class RegB(reg32.Register):
+    f: reg32.MemUField[7:0, 9]
+
+class TopAB(axi.addr_map_entity(addr_width=8)):
+    a: RegA[0x0]
+    b: RegB[0x4]
+
+t = std.VhdlCompiler.to_string(TopAB)
+import re
+inits = sorted(set(re.findall(r":= unsigned'\(\"(\d{8})\"\)", t)))
+n += 1
+if not ("00000101" in inits and "00001001" in inits):
+    bad.append(["field-default", inits, ["00000101", "00001001"]])
+
+# (b) the address map of a derived entity class contains the registers the derived class adds, whichever class is compiled first
+class MapA(axi.addr_map_entity(addr_width=8)):
+    r0: reg32.MemWord[0]
+
+class MapB(MapA):
+    r1: reg32.MemWord[4]
+
+std.VhdlCompiler.to_string(MapA)
+vb = std.VhdlCompiler.to_string(MapB)
+n += 1
+if "(7 downto 2)) = 1" not in vb:
+    bad.append(["derived-map-lost-register", "MapB compiled after MapA does not decode r1 @ 0x4"])
+print("RESULT" + json.dumps({"evaluations": n, "bad": bad[:6]}))
+'''
+
+
+def map_keys_sweep(tier="quick", seed=0):
+    return _sweep(_KEYS_SCRIPT, "map_keys_sweep", "cohdl.std.reg.reg:_FieldArg.__eq__ / __hash__ (std.Template cache of the field classes); axi4_light.addr_map_entity._gen_addr_map_",
+                  "9 field specialisations (3 positions x defaults none / 5 / 9), all pairs; one two-register map; one base / derived entity pair", "contracts.c20_layout.replay_map_keys")
+
+
+def replay_map_keys(payload):
+    r = map_keys_sweep()
+    hit = [v for v in r.get("violations", []) if v["key"] == payload["key"]]
+    return {"reproduced": bool(hit), "detail": hit[0]["solver"]["what"] if hit else "field classes are shared exactly by equal declarations; the derived map decodes its own registers"}
+
+
 def replay_field_extract(payload):
     r = field_extract_sweep()
     hit = [v for v in r.get("violations", []) if v["key"] == payload["key"]]
